@@ -255,6 +255,28 @@ theorem tie_Wait (data : Bytes) (fuel : Nat) (t : Int) (os : Os) (i : Bool) (e :
       simp [Gen.M.pure, Gen.M.bind, Gen.M.throw, resOf, exnOf]
     · subst h2; simp [resOf]
 
+/-- **tie of `Wait(std::vector<pollfd> &, timeout)`**, the driver's wait: the same statement -/
+theorem tie_WaitPfds (data : Bytes) (fuel : Nat) (t : Int) (os : Os) (i : Bool) (e : Nat) (hf : os.polls.length < fuel) :
+    (resOf id (Gen.WaitPfds (osWorld data) fuel t ⟨os, i, e⟩).1, (Gen.WaitPfds (osWorld data) fuel t ⟨os, i, e⟩).2.os)
+      = wait t os := by
+  have h := doPollUninterrupted_rel data fuel t os i e hf
+  unfold Gen.WaitPfds
+  simp only [Gen.M.bind]
+  generalize Gen.DoPollUninterrupted (osWorld data) fuel t ⟨os, i, e⟩ = g at h ⊢
+  generalize wait t os = m at h ⊢
+  obtain ⟨gr, gw⟩ := g
+  obtain ⟨mr, mo⟩ := m
+  obtain ⟨h1, h2⟩ := h
+  simp only at h1 h2
+  subst h1
+  cases mr with
+  | ok b => cases b <;> simp only at h2 <;> subst h2 <;> simp [Gen.M.pure, resOf]
+  | exn x =>
+    cases x <;> simp only at h2
+    · obtain ⟨rfl, hi, rfl⟩ := h2
+      simp [Gen.M.pure, Gen.M.bind, Gen.M.throw, resOf, exnOf]
+    · subst h2; simp [resOf]
+
 /-- how a generated `Wait` runs on a script, in the form the callers' proofs use: the final world is the
 model's final OS (with some `errno` state), the outcome is the model's outcome -/
 theorem wait_run (data : Bytes) (fuel : Nat) (t : Int) (os : Os) (i : Bool) (e : Nat) (hf : os.polls.length < fuel) :
